@@ -74,7 +74,7 @@ def gen_utilities(r, streams, nice):
                 heat_flow=None if r.random() < 0.7 else 0.0,
                 dt_cont=_num(r, nice, 0, 10, [0, 1, 5], (0, 1)),
                 htc=_num(r, nice, 0.1, 5, [1, 1, 2], (2,)),
-                price=_num(r, nice, 1, 300, [10, 40, 120], (0, 2)),
+                price=_num(r, nice, 1, 300, [10, 40, 120], (0, 2)) if r.random() >= 0.12 else dict(value=None, units="$/MWh"),  # now and then left blank: the default price applies
                 active=r.random() < 0.93,
             )
         )
@@ -155,7 +155,7 @@ def gen_options(r, kind="c11"):
         opts["DT_CONT"] = float(r.choice([0, 5, 10]))
     # numeric options inside their documented ranges
     for key, vals, pw in (("DECIMAL_PLACES", [1, 3, 4], 0.12), ("DT_PHASE_CHANGE", [0.05, 0.5, 1.0], 0.08), ("HTC", [0.5, 2.0], 0.06),
-                          ("UTILITY_PRICE", [20.0, 80.0], 0.06), ("ANNUAL_OP_TIME", [4000.0, 8760.0], 0.06), ("T_ENV", [10.0, 25.0], 0.06),
+                          ("UTILITY_PRICE", [20.0, 80.0], 0.06), ("ANNUAL_OP_TIME", [4000.0, 0, 0.0, 0], 0.12), ("T_ENV", [10.0, 25.0], 0.06),
                           ("DISCOUNT_RATE", [0.05, 0.1], 0.04), ("SERV_LIFE", [10.0, 25.0], 0.04)):
         if r.random() < pw:
             opts[key] = r.choice(vals)
